@@ -247,6 +247,23 @@ func c09Check(c c09Case) error {
 	if !reflect.DeepEqual(h2, r.Header) {
 		return fmt.Errorf("serialised header parses back differently: %+v vs %+v", h2, r.Header)
 	}
+	// the exported Header.ReadHeader parses from the reader's current position (e.g. one reader over the whole image)
+	{
+		whole := bytes.NewReader(orig)
+		if _, err := whole.Seek(0x7FB0, 0); err != nil {
+			return err
+		}
+		var h4 snes.Header
+		if err := h4.ReadHeader(whole); err != nil {
+			return fmt.Errorf("ReadHeader from a reader positioned at $7FB0: %v", err)
+		}
+		if err := c09CheckFields(c.Header, &h4); err != nil {
+			return fmt.Errorf("Header.ReadHeader on a reader positioned at file offset $7FB0 of the image: %v", err)
+		}
+		if pos, _ := whole.Seek(0, 1); pos != 0x7FB0+0x50 {
+			return fmt.Errorf("Header.ReadHeader consumed %d bytes of the reader, want 80", pos-0x7FB0)
+		}
+	}
 	// (5) one-byte change -> exactly the covering field changes
 	pos := c.FlipPos % 80
 	nv := c.FlipVal
